@@ -5,7 +5,8 @@ the REAL `task.wf` helper of the task object the running invocation is bound to:
     r = wf.random()   t = wf.utc_now()   u = wf.uuid()   x<n> = wf.execute_task(child, n)
 A harness-owned DIRECTOR (set by harness/props/c18.py) is told about every returned value, is a
 yield point before every operation (thread baton) and decides how the attempt ends
-(normal return, RetryError, or a simulated runner death)."""
+(normal return, RetryError, or a simulated runner death).  `wf_child` is the sub-task; when a
+schedule runs it, the DIRECTOR says how that run ends."""
 from __future__ import annotations
 
 DIRECTOR = None          # set by the harness (in-process) or by the child-process driver
@@ -17,6 +18,17 @@ class RunnerDeath(BaseException):
 
 
 def wf_child(n: int) -> int:
+    """Sub-task launched through wf.execute_task.  The harness decides how a run of it ends
+    (Director.child_outcome: ok / fail / retry / crash) when a schedule lets the child run."""
+    d = DIRECTOR
+    how = getattr(d, "child_outcome", "ok") if d is not None else "ok"
+    if how == "fail":
+        raise ValueError(f"harness: child {n} fails")
+    if how == "retry":
+        from pynenc.exceptions import RetryError
+        raise RetryError("harness: child retry requested")
+    if how == "crash":
+        raise RunnerDeath("harness: runner of the child dies")
     return n
 
 
